@@ -8,6 +8,7 @@ import Driver.C11
 import Driver.C12
 import Driver.C19
 import Driver.C15
+import Driver.C17
 open GqlVerif GqlVerif.Driver
 
 /-- dispatch one request; unknown op → `unsupported` -/
@@ -23,6 +24,7 @@ def dispatch (op : String) (args : Json) : Option Json :=
   | "c12.run" => some (c12run args)
   | "c19.run" => some (c19run args)
   | "c15.write" => some (c15write args)
+  | "c17.facts" => some (c17facts args)
   | "c19.decode" => some (c19decode args)
   | "c05.lex" => some (c05lex args)
   | "c05.limits" => some (c05limits args)
